@@ -40,8 +40,13 @@ def run_task(prog, tid, params, tier):
         shapes = [{'rest': 2}] if tname == 'NULL' else VG.shapes_for(S.BY_NAME[tname], 'quick')
         # strings of at most 5 (quick) / 16 (thorough) symbolic bytes: the observers walk them byte by byte and fork on each
         cap = 5 if tier == 'quick' else 16
+        long_ = [dict(sh, light=True) for sh in shapes if any(n > cap for n in sh.get('strs', ()))]
         shapes = [sh for sh in shapes if all(n <= cap for n in sh.get('strs', ()))]
         shapes = VG.pick(shapes, 4 if tier == 'quick' else 8)
+        # one maximal-length string shape per type: formatting / clone / eq / hash only (the byte-by-byte TXT attribute
+        # observers are run on the short strings above)
+        long_.sort(key=lambda sh: sum(len(n) for n in sh.get('names', ())))      # fewest name labels first: cheapest
+        shapes += long_[:1] if tier == 'quick' else long_[:2]
     for shape in shapes:
         stats = {}
         done = [0]
@@ -77,7 +82,7 @@ def run_task(prog, tid, params, tier):
             I.call_function(f_mq, [ref, En('QTYPE', 'MAILB')], {})
             I.call_function(f_mq, [ref, En('QTYPE', 'TYPE', (En('TYPE', 'TXT'),))], {})
             I.call_function(f_mc, [ref, En('QCLASS', 'CLASS', (En('CLASS', 'CH'),))], {})
-            if tname == 'TXT':
+            if tname == 'TXT' and not shape.get('light'):
                 txt = v.f[3].f[0]
                 tref = I.new_ref(txt, 'txt')
                 f_attr = [f for t, f in prog.methods[('TXT', 'attributes')] if t is None][0]
